@@ -426,6 +426,78 @@ fn positions(rng: &mut Rng, n: usize, m: usize, style: u64) -> Vec<usize> {
     s.into_iter().collect()
 }
 
+
+// Values for which a block of the select structures of `high` (they restart every 64 ones / zeros with nth(63)) starts
+// right behind at least one whole all-zero (ones side) or all-one (zeros side) 64-bit word of `high`:
+// `gaps` = at least 128 empty buckets in front of a value of rank 64k, `heaps` = a bucket number 64k holding at
+// least 128 values. Whether the regime is reached depends on the low width the crate picks (n / m), so candidates are
+// generated for several hints and MEASURED with the real width; returns None when no attempt reached it.
+fn rank_aligned(rng: &mut Rng, gaps: bool, multiset: bool) -> Option<(usize, Vec<usize>)> {
+    for attempt in 0..40 {
+        let wh: u32 = if gaps { 1 + rng.below(8) as u32 } else if multiset { 1 + rng.below(6) as u32 } else { 10 + rng.below(2) as u32 };
+        let bucket = 1usize << wh;
+        let m = if gaps { 700 + rng.below(1500) as usize } else { 900 + rng.below(1200) as usize };
+        let spots: Vec<usize> = vec![1, 2 + rng.below(6) as usize]; // which multiples of 64 get the gap / the heap
+        let mut vals: Vec<usize> = Vec::new();
+        let mut b = 0usize;
+        if gaps {
+            for i in 0..m {
+                if i > 0 {
+                    b += if i % 64 == 0 && spots.contains(&(i / 64)) { 300 + rng.below(100) as usize } else { 1 };
+                }
+                vals.push(b * bucket + rng.below(bucket as u64) as usize);
+            }
+        } else {
+            while vals.len() < m {
+                if b > 0 && b % 64 == 0 && spots.contains(&(b / 64)) {
+                    let k = 135 + rng.below(40) as usize;
+                    for j in 0..k {
+                        // inside the first quarter of the bucket (sets: distinct values)
+                        vals.push(b * bucket + if multiset { rng.below(std::cmp::max(bucket as u64 / 4, 1)) as usize } else { j });
+                    }
+                } else {
+                    vals.push(b * bucket + rng.below(bucket as u64) as usize);
+                }
+                b += 1;
+            }
+        }
+        vals.sort();
+        if !multiset {
+            vals.dedup();
+        }
+        let n = (b + 1 + rng.below(5) as usize) * bucket;
+        let w = probe_width(n, vals.len());
+        if w == 0 || w >= 64 {
+            continue;
+        }
+        // positions in `high`: value i sits at (v >> w) + i; the zero that closes bucket j at j + #(values in buckets <= j)
+        let reached = if gaps {
+            (1..vals.len() / 64).any(|k| {
+                let i = 64 * k;
+                ((vals[i] >> w) + i) - ((vals[i - 1] >> w) + i - 1) >= 129
+            })
+        } else {
+            let nb = (n >> w) + 1;
+            let mut zpos: Vec<usize> = Vec::with_capacity(std::cmp::min(nb, 1 << 20));
+            let mut seen = 0usize;
+            let mut idx = 0usize;
+            for jb in 0..std::cmp::min(nb, 1 << 20) {
+                while idx < vals.len() && (vals[idx] >> w) <= jb {
+                    idx += 1;
+                    seen += 1;
+                }
+                zpos.push(jb + seen);
+            }
+            (1..zpos.len() / 64).any(|k| zpos[64 * k] - zpos[64 * k - 1] >= 130)
+        };
+        if reached {
+            let _ = attempt;
+            return Some((n, vals));
+        }
+    }
+    None
+}
+
 fn log_uniform(rng: &mut Rng, max_bits: u64) -> usize {
     let bits = rng.below(max_bits + 1);
     if bits == 0 {
@@ -481,6 +553,16 @@ fn run_sets(rng: &mut Rng, out: &mut Out, thorough: bool) {
         }
     }
 
+    // block starts of the select structures of `high` behind empty words (see rank_aligned)
+    for gaps in [true, false, true, false] {
+        match rank_aligned(rng, gaps, false) {
+            Some((n, vals)) => {
+                out.stat(if gaps { "rank_aligned.gaps.reached" } else { "rank_aligned.heaps.reached" });
+                emit(out, if gaps { "rank_aligned_gaps" } else { "rank_aligned_heaps" }, 0, n, &vals, &Level { all_args: false, samples: 40, iters: true }, rng);
+            }
+            None => out.stat("rank_aligned.not_reached"),
+        }
+    }
     // every low width 1..63 via the inverse of the rule: m ~ n ln2 / 2^w
     for w in 1..=63u32 {
         for mm in [1usize, 2, 3, 7, 20] {
@@ -673,6 +755,16 @@ fn run_multisets(rng: &mut Rng, out: &mut Out, thorough: bool) {
                     emit(out, "exhaustive.try_from_iter", 3, n, &vals, &LIGHT, rng);
                 }
             }
+        }
+    }
+    // block starts of the select structures of `high` behind empty words (see rank_aligned)
+    for gaps in [true, false, false] {
+        match rank_aligned(rng, gaps, true) {
+            Some((n, vals)) => {
+                out.stat(if gaps { "rank_aligned.gaps.reached" } else { "rank_aligned.heaps.reached" });
+                emit(out, if gaps { "rank_aligned_gaps" } else { "rank_aligned_heaps" }, 1, n, &vals, &Level { all_args: false, samples: 40, iters: true }, rng);
+            }
+            None => out.stat("rank_aligned.not_reached"),
         }
     }
     // duplicate runs next to bucket boundaries, at 0 and at n - 1
